@@ -182,15 +182,20 @@ Ltac fields := cbn [set_cons mask prods queue stopping cons seqno file stopper p
 Lemma Inv_step_cons : forall m ps0 c, Inv m ps0 c -> Inv m ps0 (step_cons c).
 Proof.
   intros m ps0 c HI. unfold step_cons.
-  destruct (cons c) as [| |x|] eqn:Ec; [| | |exact HI];
+  destruct (cons c) as [|s|x|] eqn:Ec; [| | |exact HI];
     destruct HI as [Hm Hpr Hsrc Hfifo Hfile Htext Hex Hdn Hnd]; rewrite Ec in *; cbn [inflight] in *;
     (assert (Hd : dropped c = []) by
       (destruct (dropped c); [reflexivity|];
        match type of Hex with _ -> ?k = CExit => assert (k = CExit) by (apply Hex; discriminate); discriminate end)).
-  - (* CPop *)
+  - (* CSample *)
+    constructor; fields; try assumption.
+    + exit_goal Hd.
+    + done_goal Hdn.
+  - (* CPop s *)
     destruct (queue c) as [|x q'] eqn:Eq.
-    + constructor; fields; try assumption.
-      * rewrite Eq. exact Hfifo.
+    + destruct s; constructor; fields; try assumption; try (rewrite Eq; exact Hfifo).
+      * exit_goal Hd.
+      * done_goal Hdn.
       * exit_goal Hd.
       * done_goal Hdn.
     + destruct Htext as [Ht1 Ht2].
@@ -206,12 +211,6 @@ Proof.
            destruct Hy as [Hy|[<-|[]]]; [apply Ht1; assumption|]. rewrite Ex. discriminate.
         -- exit_goal Hd.
         -- done_goal Hdn.
-  - (* CChk *)
-    destruct (stopping c); constructor; fields; try assumption.
-    + exit_goal Hd.
-    + done_goal Hdn.
-    + exit_goal Hd.
-    + done_goal Hdn.
   - (* CWrite x *)
     destruct Hfile as [Hf1 [Hf2 Hf3]]. destruct Htext as [Ht1 Ht2].
     constructor; fields; try assumption.
@@ -380,9 +379,8 @@ Record Jnv (c : config) : Prop := {
   j_idle : stopper c = SIdle -> stopping c = false /\ after_stop c = [];
   j_req : stopper c <> SIdle -> stopping c = true /\ pushed c = at_stop c ++ after_stop c;
   j_at : forall x, In x (at_stop c) -> is_prod x = true;
-  j_chk : cons c = CChk -> queue c = win c;
-  j_exit : cons c = CExit -> stopper c <> SIdle /\
-           forall y, In y (queue c) -> In y (win c) \/ In y (after_stop c);
+  j_pop : cons c = CPop true -> stopper c <> SIdle;        (* the sample was taken after the stop request *)
+  j_exit : cons c = CExit -> stopper c <> SIdle /\ forall y, In y (queue c) -> In y (after_stop c);
   j_none : forall y, In y (pushed c) -> q_src y = None -> In y (after_stop c) }.
 
 Lemma Jnv_init : forall m ps, Jnv (init m ps).
@@ -410,35 +408,38 @@ Proof.
   destruct (q_text x); [discriminate|discriminate].
 Qed.
 
+Ltac jf := cbn [set_cons stopper stopping after_stop pushed at_stop cons queue].
+
 Lemma Jnv_step : forall c t, Inv m ps c -> Jnv c -> Jnv (step c t).
 Proof.
-  intros c t HI HJ. pose proof HJ as [Jidle Jreq Jat Jchk Jexit Jnone]. destruct t as [i| |]; cbn [step].
+  intros c t HI HJ. pose proof HJ as [Jidle Jreq Jat Jpop Jexit Jnone]. destruct t as [i| |]; cbn [step].
   - (* producer *)
     unfold step_prod. destruct (nth_error (prods c) i) as [st|]; [|exact HJ].
     destruct (todo st) as [|[lev txt] rest]; [exact HJ|].
     destruct (enabled (mask c) lev); [|constructor; cbn; assumption].
     cbn [enqueue try_push]. set (x := {| q_src := Some (i, pidx st); q_text := txt |}).
-    constructor; cbn [stopper stopping after_stop pushed at_stop cons queue win].
+    constructor; jf.
     + intros E. unfold g_after. rewrite E. apply Jidle. exact E.
     + intros E. destruct (Jreq E) as [A B]. split; [exact A|]. unfold g_after.
       destruct (stopper c); [contradiction E; reflexivity| | |]; rewrite B, app_assoc; reflexivity.
     + exact Jat.
-    + intros E. unfold g_win. rewrite E. rewrite (Jchk E). reflexivity.
+    + exact Jpop.
     + intros E. destruct (Jexit E) as [A B]. split; [exact A|]. intros y Hy. apply in_app_or in Hy.
-      unfold g_win, g_after. rewrite E.
+      unfold g_after.
       destruct Hy as [Hy|[<-|[]]].
-      * destruct (B y Hy) as [H|H]; [left; exact H|right].
-        destruct (stopper c); [exact H| | |]; apply in_or_app; left; exact H.
-      * right. destruct (stopper c); [contradiction A; reflexivity| | |]; apply in_or_app; right; left; reflexivity.
+      * specialize (B y Hy). destruct (stopper c); [exact B| | |]; apply in_or_app; left; exact B.
+      * destruct (stopper c); [contradiction A; reflexivity| | |]; apply in_or_app; right; left; reflexivity.
     + intros y Hy Hn. apply in_app_or in Hy. destruct Hy as [Hy|[<-|[]]]; [|discriminate].
       unfold g_after. specialize (Jnone y Hy Hn). destruct (stopper c); [exact Jnone| | |]; apply in_or_app; left; exact Jnone.
   - (* consumer *)
-    unfold step_cons. destruct (cons c) as [| |x|] eqn:Ec.
-    + (* CPop *)
+    unfold step_cons. destruct (cons c) as [|s|x|] eqn:Ec.
+    + (* CSample *)
+      constructor; jf; try assumption; try discriminate.
+      intros E. injection E as E. intro E2. destruct (Jidle E2) as [A _]. congruence.
+    + (* CPop s *)
       destruct (queue c) as [|x q'] eqn:Eq.
-      * constructor; cbn [set_cons stopper stopping after_stop pushed at_stop cons queue win]; try assumption.
-        -- intros _. exact Eq.
-        -- discriminate.
+      * destruct s; constructor; jf; try assumption; try discriminate.
+        intros _. split; [apply Jpop; reflexivity|]. rewrite Eq. intros y [].
       * destruct (q_text x) as [|b bs] eqn:Ex.
         -- (* the element that ends the loop: by NM it is the marker of stop() *)
            assert (Hxp : In x (pushed c)).
@@ -453,62 +454,52 @@ Proof.
            assert (Hd : dropped c = []).
            { destruct (dropped c) eqn:Ed; [reflexivity|].
              assert (cons c = CExit) by (apply (i_exit _ _ _ HI); rewrite Ed; discriminate). congruence. }
-           constructor; cbn [stopper stopping after_stop pushed at_stop cons queue win]; try assumption.
-           ++ discriminate.
-           ++ intros _. split; [exact Hns|]. intros y Hy. right.
-              (* pushed = at_stop ++ after_stop = (wrote ++ ...) ++ x :: q' *)
-              pose proof (i_fifo _ _ _ HI) as Hf. rewrite Ec, Hd, Eq in Hf. cbn [inflight app] in Hf.
-              rewrite Hsplit in Hf. apply app_eq_app in Hf. destruct Hf as [l [[A B]|[A B]]].
-              ** (* at_stop = wrote ++ l,  x :: q' = l ++ after_stop *)
-                 destruct l as [|z l].
-                 --- cbn in B. rewrite <- B. right. exact Hy.
-                 --- cbn in B. injection B as B1 B2. subst z. exfalso.
-                     assert (is_prod x = true) by (apply Jat; rewrite A; apply in_or_app; right; left; reflexivity).
-                     unfold is_prod in H. rewrite Hxn in H. discriminate.
-              ** (* wrote = at_stop ++ l,  after_stop = l ++ x :: q' *)
-                 rewrite B. apply in_or_app. right. right. exact Hy.
-        -- constructor; cbn [stopper stopping after_stop pushed at_stop cons queue win]; try assumption; discriminate.
-    + (* CChk *)
-      case_eq (stopping c); intros Est.
-      * constructor; cbn [set_cons stopper stopping after_stop pushed at_stop cons queue win]; try assumption.
-        -- discriminate.
-        -- intros _. split.
-           ++ intro E. destruct (Jidle E) as [A _]. congruence.
-           ++ intros y Hy. left. rewrite <- (Jchk eq_refl). exact Hy.
-      * constructor; cbn [set_cons stopper stopping after_stop pushed at_stop cons queue win]; try assumption; discriminate.
-    + constructor; cbn [stopper stopping after_stop pushed at_stop cons queue win]; try assumption; discriminate.
+           constructor; jf; try assumption; try discriminate.
+           intros _. split; [exact Hns|]. intros y Hy.
+           pose proof (i_fifo _ _ _ HI) as Hf. rewrite Ec, Hd, Eq in Hf. cbn [inflight app] in Hf.
+           rewrite Hsplit in Hf. apply app_eq_app in Hf. destruct Hf as [l [[A B]|[A B]]].
+           ++ destruct l as [|z l].
+              ** cbn in B. rewrite <- B. right. exact Hy.
+              ** cbn in B. injection B as B1 B2. subst z. exfalso.
+                 assert (is_prod x = true) by (apply Jat; rewrite A; apply in_or_app; right; left; reflexivity).
+                 unfold is_prod in H. rewrite Hxn in H. discriminate.
+           ++ rewrite B. apply in_or_app. right. right. exact Hy.
+        -- constructor; jf; try assumption; discriminate.
+    + constructor; jf; try assumption; discriminate.
     + exact HJ.
   - (* stop() *)
     unfold step_stop. destruct (stopper c) eqn:Es.
     + (* request_stop *)
       destruct (Jidle eq_refl) as [_ Ha].
-      constructor; cbn [stopper stopping after_stop pushed at_stop cons queue win]; try assumption.
+      constructor; jf; try assumption.
       * discriminate.
       * intros _. split; [reflexivity|]. rewrite app_nil_r. reflexivity.
       * intros y Hy. destruct (is_prod y) eqn:E; [reflexivity|]. exfalso.
         unfold is_prod in E. destruct (q_src y) eqn:Esy; [discriminate|].
         pose proof (Jnone y Hy Esy) as H. rewrite Ha in H. inversion H.
+      * intros _. discriminate.
       * intros E. destruct (Jexit E) as [A _]. contradiction A; reflexivity.
       * intros y Hy Hn. pose proof (Jnone y Hy Hn) as H. rewrite Ha in H. inversion H.
     + (* enqueue("") *)
       cbn [enqueue try_push]. assert (Hns : SReq <> SIdle) by discriminate. destruct (Jreq Hns) as [A B].
-      constructor; cbn [stopper stopping after_stop pushed at_stop cons queue win]; try assumption.
+      constructor; jf; try assumption.
       * discriminate.
       * intros _. split; [exact A|]. rewrite B, app_assoc. reflexivity.
-      * intros E. unfold g_win. rewrite E, (Jchk E). reflexivity.
-      * intros E. split; [discriminate|]. destruct (Jexit E) as [_ C]. intros y Hy. unfold g_win. rewrite E.
+      * intros _. discriminate.
+      * intros E. split; [discriminate|]. destruct (Jexit E) as [_ C]. intros y Hy.
         apply in_app_or in Hy. destruct Hy as [Hy|[<-|[]]].
-        -- destruct (C y Hy) as [H|H]; [left; exact H|right; apply in_or_app; left; exact H].
-        -- right. apply in_or_app. right. left. reflexivity.
+        -- apply in_or_app; left; apply C; exact Hy.
+        -- apply in_or_app. right. left. reflexivity.
       * intros y Hy Hn. apply in_app_or in Hy. destruct Hy as [Hy|[<-|[]]].
         -- apply in_or_app. left. apply Jnone; assumption.
         -- apply in_or_app. right. left. reflexivity.
     + destruct (cons c) eqn:Ec; try exact HJ.
       assert (Hns : SPushed <> SIdle) by discriminate. destruct (Jreq Hns) as [A B].
-      constructor; cbn [stopper stopping after_stop pushed at_stop cons queue win]; try assumption.
+      constructor; jf; try assumption.
       * discriminate.
       * intros _. split; assumption.
-      * intros _. split; [discriminate|]. first [destruct (Jexit eq_refl) as [_ C]|destruct (Jexit Ec) as [_ C]]. exact C.
+      * intros _. discriminate.
+      * intros _. split; [discriminate|]. destruct (Jexit eq_refl) as [_ C]. exact C.
     + exact HJ.
 Qed.
 
@@ -534,14 +525,13 @@ Proof.
 Qed.
 
 (* When stop() has returned, every element that was in the queue history at the moment stop()
-   executed _stopping.request_stop() has been written, except those pushed in the window between
-   the consumer's last (unsuccessful) try_pop and its test of _stopping. *)
+   executed _stopping.request_stop() has been written. *)
 Lemma c28_all_written_lemma : forall sched,
   let c := run sched (init m ps) in
   stopper c = SDone ->
-  forall x, In x (at_stop c) -> In x (wrote c) \/ In x (win c).
+  (forall x, In x (at_stop c) -> In x (wrote c)) /\ NoDup (map q_src (wrote c)).
 Proof.
-  intros sched c Hdone x Hx.
+  intros sched c Hdone. split; [|apply c28_once_lemma]. intros x Hx.
   pose proof (Inv_reach m ps sched) as HI. pose proof (Jnv_reach sched) as HJ. fold c in HI, HJ.
   pose proof (i_done _ _ _ HI Hdone) as Hc.
   assert (Hns : stopper c <> SIdle) by (rewrite Hdone; discriminate).
@@ -549,11 +539,11 @@ Proof.
   assert (Hxp : In x (pushed c)) by (rewrite Hsplit; apply in_or_app; left; exact Hx).
   pose proof (j_at _ HJ x Hx) as Hprod.
   pose proof (i_fifo _ _ _ HI) as Hf. rewrite Hc in Hf. cbn [inflight app] in Hf.
-  rewrite Hf in Hxp. apply in_app_or in Hxp. destruct Hxp as [Hw|Hxp]; [left; exact Hw|].
+  rewrite Hf in Hxp. apply in_app_or in Hxp. destruct Hxp as [Hw|Hxp]; [exact Hw|].
   apply in_app_or in Hxp. destruct Hxp as [Hd|Hq].
   - exfalso. apply (pushed_prod_text c x HI); [rewrite Hsplit; apply in_or_app; left; exact Hx|exact Hprod|].
     apply (proj2 (i_text _ _ _ HI)). exact Hd.
-  - destruct (j_exit _ HJ Hc) as [_ B]. destruct (B x Hq) as [H|H]; [right; exact H|].
+  - destruct (j_exit _ HJ Hc) as [_ B]. pose proof (B x Hq) as H.
     exfalso. eapply NoDup_src_split; [|exact Hprod|exact Hx|exact H]. rewrite <- Hsplit. exact (i_nodup _ _ _ HI).
 Qed.
 End AllWritten.
@@ -566,8 +556,9 @@ Proof.
   - unfold step_prod. destruct (nth_error (prods c) i) as [st|]; [|auto].
     destruct (todo st) as [|[lev txt] rest]; [auto|].
     destruct (enabled (mask c) lev); cbn; auto.
-  - unfold step_cons. destruct (cons c); [destruct (queue c) as [|x q']; [cbn; auto|destruct (q_text x); cbn; auto]
-                                         |destruct (stopping c); cbn; auto|cbn; auto|auto].
+  - unfold step_cons. destruct (cons c) as [|s|x|]; [cbn; auto
+                                         |destruct (queue c) as [|x q']; [destruct s; cbn; auto|destruct (q_text x); cbn; auto]
+                                         |cbn; auto|auto].
   - unfold step_stop. destruct (stopper c) eqn:E; [contradiction H; reflexivity|cbn; split; [reflexivity|discriminate]| |].
     + destruct (cons c); cbn; rewrite ?E; split; try reflexivity; try discriminate; rewrite E; discriminate.
     + rewrite E. split; [reflexivity|discriminate].
@@ -602,16 +593,16 @@ Proof.
 Qed.
 
 (* stop() called after every producer has made all its calls: when it has returned, every line
-   submitted at an enabled level is written, in order (unless a push fell into the window) *)
+   submitted at an enabled level is written, in order *)
 Lemma c28_all_written_done_lemma : forall m ps s1 s2,
   no_marker m ps = true ->
   let c1 := run s1 (init m ps) in
   stopper c1 = SIdle -> all_done c1 = true ->
   let c2 := run s2 (step c1 Stop) in
-  stopper c2 = SDone -> win c2 = [] ->
+  stopper c2 = SDone ->
   forall i p, nth_error ps i = Some p -> filter (from i) (wrote c2) = elems m i 0 p.
 Proof.
-  intros m ps s1 s2 NM c1 Hidle Hdone c2 Hs Hw i p Hp.
+  intros m ps s1 s2 NM c1 Hidle Hdone c2 Hs i p Hp.
   assert (E : c2 = run (s1 ++ Stop :: s2) (init m ps)).
   { unfold c2, c1, run. rewrite fold_left_app. reflexivity. }
   pose proof (c28_order_lemma m ps (s1 ++ Stop :: s2) i p Hp) as [Hpre _]. rewrite <- E in Hpre.
@@ -626,28 +617,13 @@ Proof.
   rewrite Ht, app_nil_r in Hsplit. subst done.
   assert (Hxa : In x (at_stop c2)).
   { unfold c2. rewrite c28_at_stop_lemma by exact Hidle. rewrite <- Hfil in Hx. apply filter_In in Hx. tauto. }
-  rewrite E in Hs, Hxa, Hw |- *.
-  destruct (c28_all_written_lemma m ps NM (s1 ++ Stop :: s2) Hs x Hxa) as [H|H].
-  - apply filter_In. split; [exact H|]. eapply elems_from. exact Hx.
-  - rewrite Hw in H. inversion H.
+  rewrite E in Hs, Hxa |- *.
+  destruct (c28_all_written_lemma m ps NM (s1 ++ Stop :: s2) Hs) as [H _].
+  apply filter_In. split; [exact (H x Hxa)|]. eapply elems_from. exact Hx.
 Qed.
 
 (* ------------------------------------------------------------------ what is still wrong *)
 Local Open Scope Z_scope.
-
-(* The window: the logger thread finds the queue empty; a line is accepted; stop() requests the
-   stop; the logger thread now tests _stopping and leaves although the queue holds the line. *)
-Lemma c28_stop_window_refuted_lemma :
-  exists m ps sched,
-    let c := run sched (init m ps) in
-    no_marker m ps = true /\ stopper c = SDone /\
-    at_stop c = [{| q_src := Some (O, O); q_text := [65] |}] /\
-    map rets (prods c) = [[true]] /\
-    wrote c = [] /\ win c = [{| q_src := Some (O, O); q_text := [65] |}] /\
-    file_complete m ps (observe c) = false.
-Proof.
-  exists 2, [[(1, [65])]], [Cons; P 0; Stop; Cons; Stop; Stop]. vm_compute. repeat split; reflexivity.
-Qed.
 
 (* a line with an empty text at an enabled level makes the consumer leave its loop (it is the
    stop marker): the lines behind it are never written, however long stop() is delayed *)
@@ -668,8 +644,8 @@ Lemma c28_nonvacuous_lemma :
   no_marker 18 nv_ps = true /\
   let c1 := run [P 1; P 0; P 1; P 0; P 0] (init 18 nv_ps) in
   stopper c1 = SIdle /\ all_done c1 = true /\ length (queue c1) = 4%nat /\
-  let c2 := run (Stop :: repeat Cons 12 ++ [Stop; Stop]) (step c1 Stop) in
-  stopper c2 = SDone /\ win c2 = [] /\
+  let c2 := run (Stop :: repeat Cons 15 ++ [Stop; Stop]) (step c1 Stop) in
+  stopper c2 = SDone /\
   file c2 = [(1%nat, [68]); (2%nat, [65]); (3%nat, [69]); (4%nat, [67])] /\
   map rets (prods c2) = [[true; true; true]; [true; true]] /\
   c28_ok 18 nv_ps (observe c2) = true.
